@@ -151,7 +151,80 @@ class C20(Prop):
         mk("reload-object", ["do m load,/c20/u1/a", "do u1a seteuid,s:u1", "do m clone,c1,/c20/u1/a", "do c1 seteuid,s:zed",
                              "do u1a reload,c1", "do c1 reload,u1a", "do u1a load,/c20/u1/b", "do m reload,m", "do m reload,zz",
                              "do m export,c1", "do m reload,c1"])
+        # ---- nested creation: ops run by create() of an object that is itself being loaded / cloned -------------
+        # the class of the round-2 breaking change: B is loaded by A, gets euid 0, and its create() tries to load C
+        mk("nested-noeuid-load", ["script /c20/u2/a load,/c20/u2/b;clone,c1,/c20/u2/c;load,/c20/u1/a",
+                                  "do m load,/c20/u1/a", "do u1a seteuid,s:u1", "do u1a load,/c20/u2/a",
+                                  "do u2a load,/c20/u2/b", "do m load,/c20/u2/b"])
+        mk("nested-noeuid-clone-script", ["script /c20/u2/a# load,/c20/u2/b;clone,c2,/c20/u2/c",
+                                          "do m clone,c1,/c20/u2/a", "do c1 load,/c20/u2/b"])
+        mk("nested-seteuid-then-load", ["script /c20/u2/a seteuid,s:u2;load,/c20/u2/b;seteuid,i:0;load,/c20/u2/c",
+                                        "script /c20/u2/b load,/c20/u1/c", "do m load,/c20/u1/a", "do u1a seteuid,s:u1",
+                                        "do u1a load,/c20/u2/a"])
+        mk("nested-refused-seteuid", ["pol vs u2a * i:0", "script /c20/u2/a seteuid,s:u2;load,/c20/u2/b;clone,c1,/c20/u2/b",
+                                      "do m load,/c20/u2/a", "pol vs u2a * err", "do m reload,u2a"])
+        mk("nested-depth3", ["script /c20/u1/a seteuid,s:u1;load,/c20/u1/b", "script /c20/u1/b load,/c20/u1/c;seteuid,s:zed;load,/c20/u1/c",
+                             "script /c20/u1/c load,/c20/u2/a;seteuid,s:u1;clone,c1,/c20/u2/a", "script /c20/u2/a# load,/c20/u2/b",
+                             "do m load,/c20/u1/a"])
+        mk("nested-backbone", ["script /c20/bb/a load,/c20/bb/b;load,/c20/u1/a", "script /c20/bb/b clone,c1,/c20/u1/b;seteuid,i:0;load,/c20/bb/c",
+                               "script /c20/u1/b# seteuid,s:zed;export,bba;load,/c20/u2/a", "do m load,/c20/bb/a",
+                               "do m load,/c20/u2/a", "do m load,/c20/u1/a"])
+        mk("nested-master-noeuid", ["script /c20/bb/a load,/c20/bb/b", "script /c20/u1/a load,/c20/u1/b", "do m seteuid,i:0",
+                                    "do m load,/c20/bb/a", "do m load,/c20/u1/a", "do m clone,c1,/c20/bb/a"])
+        mk("nested-same-uid", ["script /c20/u1/b load,/c20/u1/c;clone,c1,/c20/u1/c", "do m load,/c20/u1/a", "do u1a seteuid,s:u1",
+                               "do u1a load,/c20/u1/b", "do u1b load,/c20/u1/c"])
+        mk("nested-errors", ["script /c20/u1/a seteuid,s:u1;load,/c20/u1/b;load,/c20/u1/nofile;clone,c1,/c20/u1/nofile;seteuid,i:3;load,/c20/u1/b;clone,c2,/c20/u1/c;clone,c3,/c20/u1/c",
+                             "script /c20/u1/c# seteuid,s:err;load,/c20/u2/a", "pol cf u1 s:u1", "pol vs * err err",
+                             "do m load,/c20/u1/a", "pol cf u1 err", "do m dest,u1a", "do m load,/c20/u1/a",
+                             "pol cf u1 s:u1", "do m load,/c20/u1/a", "do m load,/c20/u1/b"])
+        mk("nested-cf-error-inside", ["script /c20/u1/a seteuid,s:u1;load,/c20/u2/a;load,/c20/u2/a;clone,c1,/c20/u2/b;clone,c2,/c20/u2/b",
+                                      "pol cf u2 err", "do m load,/c20/u1/a"])
+        mk("nested-export", ["script /c20/u2/a export,u1a;seteuid,s:u2;export,u1a;export,u2a;export,m",
+                             "script /c20/u2/b seteuid,s:x9;export,m;export,u2a", "do m load,/c20/u1/a",
+                             "do m load,/c20/u2/a", "do m seteuid,i:0", "do m load,/c20/u2/b"])
+        mk("nested-refused-ops", ["script /c20/u1/a seteuid,s:u1;dest,u1a;reload,u1a;dest,m;dest,zz;reload,zz", "do m load,/c20/u1/a",
+                                  "do m reload,u1a", "do m clone,c1,/c20/u1/a"])
+        mk("nested-oid-taken", ["script /c20/u1/a seteuid,s:u1;clone,c1,/c20/u2/a", "script /c20/u2/a# seteuid,s:u2",
+                                "do m clone,c1,/c20/u1/a", "do c1 load,/c20/u2/b", "do m clone,c1,/c20/u1/b"])
+        mk("nested-reload-reruns", ["script /c20/u1/a seteuid,s:u1;clone,c1,/c20/u1/b", "do m load,/c20/u1/a", "do m reload,u1a",
+                                    "script /c20/u1/a -", "do m reload,u1a", "script /c20/u1/a load,/c20/u1/c", "do m reload,u1a"])
         return B
+
+    def gen_scripts(self, rng):
+        """create() scripts over a chain of file names; a script only refers to names later in the chain or to
+        names without a script, so nesting is acyclic and at most 2 * len(chain) deep"""
+        all_paths = ["/c20/%s/%s" % (d, f) for d in DIRS for f in FILES]
+        chain = rng.shuffle(all_paths)[:rng.range(2, 4)]
+        keys = []
+        for p in chain:
+            keys.append(p)
+            if rng.chance(1, 2):
+                keys.append(p + "#")
+        lines = []
+        nclone = [80]
+        for i, k in enumerate(keys):
+            later = [q for q in keys[i + 1:]]
+            later_paths = sorted(set(q.rstrip("#") for q in later if q.rstrip("#") != k.rstrip("#")))
+            free = [q for q in all_paths if q not in chain]
+            ops = []
+            for _ in range(rng.range(1, 4)):
+                kind = rng.weighted([("load", 8), ("clone", 5), ("seteuid", 6), ("seteuid0", 1), ("export", 2), ("bad", 1)])
+                tgt = rng.choice(later_paths) if later_paths and rng.chance(2, 3) else rng.choice(free)
+                if kind == "load":
+                    ops.append("load,%s" % tgt)
+                elif kind == "clone":
+                    nclone[0] += 1
+                    ops.append("clone,c%d,%s" % (nclone[0], tgt))
+                elif kind == "seteuid":
+                    ops.append("seteuid,s:%s" % rng.choice(NAMES))
+                elif kind == "seteuid0":
+                    ops.append("seteuid,i:0")
+                elif kind == "export":
+                    ops.append("export,%s" % rng.choice(["m", "c1", "c2", "u1a", "u2a", "bba"]))
+                else:
+                    ops.append(rng.choice(["dest,m", "reload,u1a", "load,/c20/u1/nofile", "seteuid,i:7", "dest,u1a"]))
+            lines.append("script %s %s" % (k, ";".join(ops)))
+        return lines, chain
 
     def gen_case(self, rng, cid):
         """history generator; a rough shadow state (which ids exist, which probably have an euid) keeps most
@@ -162,6 +235,10 @@ class C20(Prop):
         refuse_default = rng.chance(1, 4)
         if refuse_default:
             lines.append("pol vs * * %s" % rng.choice(["i:0", "none"]))
+        chain = []
+        if rng.chance(2, 3):
+            sl, chain = self.gen_scripts(rng)
+            lines += sl
 
         def actor():
             if rng.chance(1, 25):
@@ -176,6 +253,8 @@ class C20(Prop):
         def path():
             if rng.chance(1, 25):
                 return "/c20/%s/%s" % (rng.choice(DIRS + ["zz"]), rng.choice(["nofile", "x"]))
+            if chain and rng.chance(1, 3):
+                return rng.choice(chain)
             return "/c20/%s/%s" % (rng.choice(DIRS), rng.choice(FILES))
 
         def created(a, p, oid=None):
@@ -258,17 +337,22 @@ class C20(Prop):
     def histogram(self, cases, impl):
         h = {"steps": 0, "creations": 0, "cf_error": 0, "late_init": 0, "seteuid_approved": 0, "seteuid_refused": 0,
              "seteuid_zero": 0, "export_ok": 0, "export_refused": 0, "export_error": 0, "noeuid_load_error": 0,
-             "noeuid_clone_error": 0, "backbone_grants": 0, "policy_errors": 0, "nobj": 0, "reloads": 0,
+             "noeuid_clone_error": 0, "nested_ops": 0, "nested_creations": 0, "nested_noeuid_refused": 0, "max_nesting": 0, "backbone_grants": 0, "policy_errors": 0, "nobj": 0, "reloads": 0,
              "crash": 0}
         for c in cases:
             cur = None
             pend_cf = None
+            stack = []
             for l in impl.get(c.id, []):
                 t = l.split()
                 if not t:
                     continue
                 if t[0] == "do":
                     h["steps"] += 1
+                    stack.append(cur)
+                    if len(stack) > 1:
+                        h["nested_ops"] += 1
+                    h["max_nesting"] = max(h["max_nesting"], len(stack) - 1)
                     cur = t[2] if len(t) > 2 else ""
                     pend_cf = None
                 elif t[0] == "cf":
@@ -282,6 +366,8 @@ class C20(Prop):
                         h["late_init"] += 1
                     else:
                         h["creations"] += 1
+                        if len(stack) > 1:
+                            h["nested_creations"] += 1
                         if pend_cf == "s:Backbone" and len(t) > 4 and t[4] != "0":
                             h["backbone_grants"] += 1
                     pend_cf = None
@@ -301,6 +387,9 @@ class C20(Prop):
                         h["policy_errors"] += 1
                     if r == "nobj":
                         h["nobj"] += 1
+                    if len(stack) > 1 and ("no_effective_user" in r or "without_effective_UID" in r):
+                        h["nested_noeuid_refused"] += 1
+                    cur = stack.pop() if stack else None
                 elif t[0] == "crash":
                     h["crash"] += 1
         return h
